@@ -102,3 +102,10 @@ json.dump({'note': 'per function and effect (raise / return / flow / assignment 
                    'stonelint/effects.py', 'effects': eff},
           open(os.path.join(HERE, 'reference', 'effects.json'), 'w'), indent=0, sort_keys=True)
 print(len(eff), 'functions with effects,', sum(len(v) for v in eff.values()), 'effects')
+
+# interface of modules, classes and functions (stonelint/interface.py)
+from stonelint import interface
+iref = interface.build_reference(pm1)
+json.dump(iref, open(os.path.join(HERE, 'reference', 'interface.json'), 'w'), indent=0, sort_keys=True)
+print(len(iref['modules']), 'modules,', len(iref['classes']), 'classes,', len(iref['functions']),
+      'functions in the interface reference')
